@@ -479,6 +479,8 @@ def _lay_json(lay):
 
 
 def check_point(pt, only=None):
+    from ..core import inputs as _inputs
+    _inputs.process_prelude()   # explored in a process that has already read many other files (see core/inputs.py)
     base = pt["base"]
     text = base_text(base)
     vio = []
